@@ -3,6 +3,7 @@
  * resource handling with the model's ledger. */
 #include <stdlib.h>
 #include <string.h>
+#include <strings.h>
 #include <idn2.h>
 #undef idna_to_ascii_lz
 #undef idna_strerror
@@ -13,7 +14,15 @@ struct verif_idn_resconf { int live; };
 int idna_to_ascii_lz (const char *input, char **output, int flags)
 {
     (void) flags;
-    return idn2_to_ascii_8z (input, output, IDN2_NONTRANSITIONAL);
+    int rc = idn2_to_ascii_8z (input, output, IDN2_NONTRANSITIONAL);
+    /* RFC 3490 ToASCII leaves an all-ASCII label as it is: libidn hands such names back in the caller's letter case
+     * (libidn2 lower-cases them).  Reproduced here, so that code relying on lower-case output is exercised. */
+    if (rc == IDN2_OK && *output != NULL && strlen (*output) == strlen (input)) {
+        int ascii = 1;
+        for (const unsigned char *p = (const unsigned char *) input; *p; p++) if (*p >= 0x80) ascii = 0;
+        if (ascii && strcasecmp (*output, input) == 0) memcpy (*output, input, strlen (input));
+    }
+    return rc;
 }
 const char *idna_strerror (int rc) { return idn2_strerror (rc); }
 
